@@ -492,6 +492,23 @@ func (ts *Terms) Bin(op Op, a, b *Term) *Term {
 		if a == b {
 			return ts.Const(w, 0)
 		}
+		// (x ^ y) ^ y -> x
+		if a.Op == OpXor {
+			if a.Args[0] == b {
+				return a.Args[1]
+			}
+			if a.Args[1] == b {
+				return a.Args[0]
+			}
+		}
+		if b.Op == OpXor {
+			if b.Args[0] == a {
+				return b.Args[1]
+			}
+			if b.Args[1] == a {
+				return b.Args[0]
+			}
+		}
 	case OpShl:
 		if isZero(b) {
 			return a
@@ -746,6 +763,9 @@ func (ts *Terms) ZExt(a *Term, w int) *Term {
 	if a.Op == OpZExt {
 		return ts.ZExt(a.Args[0], w)
 	}
+	if a.Op == OpIte && a.Args[1].Op == OpConst && a.Args[2].Op == OpConst && w <= 64 {
+		return ts.Ite(a.Args[0], ts.Const(w, a.Args[1].Val), ts.Const(w, a.Args[2].Val))
+	}
 	return ts.mk(OpZExt, w, 0, "", a)
 }
 
@@ -897,6 +917,10 @@ func (ts *Terms) Eq(a, b *Term) *Term {
 	}
 	if a.Op == OpConst {
 		a, b = b, a
+	}
+	if b.Op == OpConst && a.W == 1 && b.Val == 0 {
+		// canonical form for single bits: (x == 0) is ¬(x == 1)
+		return ts.BNot(ts.Eq(a, ts.Const(1, 1)))
 	}
 	if b.Op == OpConst && a.W > 0 {
 		// ite(c, k1, k2) == k
